@@ -261,7 +261,17 @@ fn helix_points(r: &mut Rng, n: usize, h: f64, eps: f64) -> Vec<P3> {
 /// points on a straight line in x-y (exactly collinear where the coordinates allow it), any z behaviour
 fn line_points(r: &mut Rng, n: usize, eps: f64) -> Vec<P3> {
     let mut out = Vec::new();
-    match r.below(4) {
+    match r.below(5) {
+        4 => {
+            // radial line at phi = 0 with an angular scatter far below the float resolution elsewhere, but above the
+            // class of the open finding `tinyphi` (<= 1e-144): circle radii up to 1e130 m
+            let sc = log_uniform(r, 1e-130, 1e-19);
+            let dz = r.pick(&[0.0, 0.01, 0.003, 1e-300]);
+            let z0 = uniform(r, -1.0, 1.0);
+            for i in 0..n {
+                out.push([uniform(r, 0.105, 0.2), sc * uniform(r, -1.0, 1.0), (z0 + dz * i as f64).clamp(-ZMAX, ZMAX)]);
+            }
+        }
         0 => {
             // radial line: same phi, exact in x-y for phi in {0, pi, ...}
             let phi = match r.below(3) {
